@@ -202,7 +202,9 @@ class SqwBuilder:
                         pix_wrap.row_data, pix_wrap.row_units, strict=True
                     )
                 ]
-            ),
+                # The range is stored as f64; vstack keeps the dtype of the rows,
+                # e.g., float32 if all rows are float32.
+            ).astype(np.float64, copy=False),
         )
 
     def _serialize_data_blocks(
